@@ -161,7 +161,9 @@ var c09Fine bool // scheduling points at every byte (set per scenario, single-th
 func c09Env(s *sched, id int, pred *[]uint32) opEnv {
 	fine := c09Fine
 	return opEnv{
-		Reader:    func(b []byte) io.Reader { return &schedReader{s: s, id: id, b: b, info: infoOf(b), pred: pred, fine: fine} },
+		Reader: func(b []byte) io.Reader {
+			return &schedReader{s: s, id: id, b: b, info: infoOf(b), pred: pred, fine: fine}
+		},
 		RawReader: func(b []byte) io.Reader { return &schedReader{s: s, id: id, b: b, info: infoOf(b), fine: fine} },
 		Writer:    func(w io.Writer) io.Writer { return &schedWriter{s: s, id: id, w: w} },
 	}
@@ -217,6 +219,7 @@ func c09Bodies(threadOps [][]int, results [][]opResult, preds [][][]uint32) []fu
 		results[t] = make([]opResult, len(threadOps[t]))
 		preds[t] = make([][]uint32, len(threadOps[t]))
 		bodies[t] = func(s *sched, id int) {
+			c09ActiveSched = s
 			for k, oi := range threadOps[t] {
 				results[t][k] = pool[oi].Run(c09Env(s, id, &preds[t][k]))
 			}
@@ -390,6 +393,7 @@ func runC09(w *vx.W) {
 		}
 	}
 	c09Fine = false
+	c09InstrumentedPass(w, explore)
 	for h := range traces {
 		w.State(h)
 	}
@@ -438,6 +442,13 @@ func runC09(w *vx.W) {
 // ---- free-running pass (runs inside the -race build) ----
 
 func c09Sub(args []string) {
+	if len(args) >= 4 && args[0] == "instr" {
+		a, _ := strconv.Atoi(args[1])
+		b, _ := strconv.Atoi(args[2])
+		bound, _ := strconv.Atoi(args[3])
+		c09InstrSub(a, b, bound)
+		return
+	}
 	if len(args) < 4 || args[0] != "race" {
 		os.Exit(2)
 	}
@@ -541,4 +552,197 @@ func raceSignature(report string) string {
 		return "unattributed"
 	}
 	return strings.Join(fns, "+")
+}
+
+// ---- access-level scheduling points (vinstr overlay) ----
+
+type vinstrPoints struct {
+	Points []struct {
+		ID    int      `json:"id"`
+		File  string   `json:"file"`
+		Line  int      `json:"line"`
+		Func  string   `json:"func"`
+		Vars  []string `json:"vars"`
+		Write bool     `json:"write"`
+	} `json:"points"`
+	Mutable  map[string][]string `json:"mutable_package_variables"`
+	SyncVars []string            `json:"sync_typed_variables"`
+	Locks    bool                `json:"uses_locks_or_atomics"`
+}
+
+var c09ActiveSched *sched
+
+// c09InstrumentedPass: with the overlay in place every access to a mutable package-level variable is a scheduling
+// point. Each scenario is explored in a *fresh process* (lazily initialised shared state must be cold for the
+// first execution). The scenarios avoid the calls that decode accumulating component fields (their package-level
+// accumulators are the listed finding, established by the other passes), so any shared variable seen here is new.
+func c09InstrumentedPass(w *vx.W, _ func(threadOps [][]int, bound int, fam string)) {
+	if !c09Instrumented {
+		w.Note("access-level scheduling points not available in this build (vinstr overlay missing): only Read/Write-level points were explored")
+		return
+	}
+	meta := c09LoadPoints()
+	if w.Shard == 0 {
+		w.Extra("instrumentation", map[string]interface{}{"scheduling_points": len(meta.Points), "mutable_package_variables": meta.Mutable, "sync_typed": meta.SyncVars, "package_uses_locks_or_atomics": meta.Locks})
+	}
+	pool := opPool()
+	safe := []int{2, 6, 7, 8, 9, 10, 11, 12, 13, 15}
+	bound := 2
+	if !w.Quick() {
+		bound = 3
+	}
+	var k int64
+	for ai, a := range safe {
+		for _, b := range safe[ai:] {
+			k++
+			if !w.Mine(k) {
+				continue
+			}
+			if w.Expired("instrumented pairs") {
+				return
+			}
+			out, err := vx.SubRun("C09", "instr", strconv.Itoa(a), strconv.Itoa(b), strconv.Itoa(bound))
+			if err != nil {
+				w.HarnessError("instrumented scenario %d,%d: %v", a, b, err)
+			}
+			var res c09InstrResult
+			if err := json.Unmarshal(out, &res); err != nil {
+				w.HarnessError("instrumented scenario %d,%d: bad output: %v", a, b, err)
+			}
+			w.Eval(res.Execs)
+			w.Trace(res.Execs)
+			w.Transition(res.Points)
+			w.Fam(fmt.Sprintf("pairs-access-level-bound%d", bound), 1)
+			w.Fam("access-level-points-hit", res.AccessPoints)
+			if res.Diverged != "" {
+				w.Cap(fmt.Sprintf("access-level exploration of [%s | %s] stopped after %d executions: control flow at the access points differs between executions in one process (%s)", pool[a].Name, pool[b].Name, res.Execs, res.Diverged))
+			}
+			for _, d := range res.Diffs {
+				w.Violation("concurrent-result-differs", fmt.Sprintf("threads [%s | %s] (access-level scheduling) under schedule %v: %s", pool[a].Name, pool[b].Name, d.Schedule, d.Detail),
+					c09Replay{Ops: []string{pool[a].Name, pool[b].Name}, OpIdx: [][]int{{a}, {b}}, Schedule: d.Schedule})
+			}
+			for v, sites := range res.Conflicts {
+				d := fmt.Sprintf("%s || %s: package-level variable %s is written and accessed by both goroutines without synchronisation (sites %v)", pool[a].Name, pool[b].Name, v, sites)
+				if meta.Locks {
+					w.Note("access conflict on " + v + " not reported: the package uses locks/atomics that the access-level oracle does not model (left to the race-detector pass)")
+					continue
+				}
+				if strings.HasPrefix(v, "accumu") {
+					w.Known("race/accumulators-package-level", d, c09Replay{Race: d})
+				} else {
+					w.Violation("access-conflict/"+v, d, c09Replay{Race: d})
+				}
+			}
+		}
+	}
+}
+
+type c09InstrResult struct {
+	Execs        int64               `json:"execs"`
+	Points       int64               `json:"points"`
+	AccessPoints int64               `json:"access_points"`
+	Conflicts    map[string][]string `json:"conflicts"`
+	Diverged     string              `json:"diverged"`
+	Diffs        []struct {
+		Schedule []int  `json:"schedule"`
+		Detail   string `json:"detail"`
+	} `json:"diffs"`
+}
+
+func c09LoadPoints() vinstrPoints {
+	var meta vinstrPoints
+	if b, err := os.ReadFile(os.Getenv("VX_POINTS")); err == nil {
+		json.Unmarshal(b, &meta)
+	}
+	return meta
+}
+
+// c09InstrSub explores one scenario in this (fresh) process with access-level scheduling points.
+func c09InstrSub(a, b, bound int) {
+	runtime.GOMAXPROCS(1)
+	meta := c09LoadPoints()
+	byID := map[int]int{}
+	for i, p := range meta.Points {
+		byID[p.ID] = i
+	}
+	isSync := map[string]bool{}
+	for _, v := range meta.SyncVars {
+		isSync[v] = true
+	}
+	access, writes, sites := map[string]map[int]bool{}, map[string]map[int]bool{}, map[string]map[string]bool{}
+	var res c09InstrResult
+	c09InstallPointHook(func(id int) {
+		s := c09ActiveSched
+		if s == nil {
+			return
+		}
+		t := s.running
+		label := "access#" + strconv.Itoa(id)
+		if i, ok := byID[id]; ok {
+			p := meta.Points[i]
+			label = fmt.Sprintf("%s:%d", p.File, p.Line)
+			for _, v := range p.Vars {
+				if access[v] == nil {
+					access[v], writes[v], sites[v] = map[int]bool{}, map[int]bool{}, map[string]bool{}
+				}
+				access[v][t] = true
+				if p.Write {
+					writes[v][t] = true
+				}
+				sites[v][label] = true
+			}
+		}
+		res.AccessPoints++
+		s.Point(t, label)
+	})
+	pool := opPool()
+	threadOps := [][]int{{a}, {b}}
+	results := make([][]opResult, 2)
+	preds := make([][][]uint32, 2)
+	distinct := []map[string][]int{{}, {}}
+	_, _, err := schedExplore(func() []func(*sched, int) { return c09Bodies(threadOps, results, preds) }, bound, 50000, func(r *schedResult) {
+		res.Execs++
+		res.Points += int64(len(r.points))
+		for t := 0; t < 2; t++ {
+			key := results[t][0].Text + fmt.Sprint(results[t][0].Dist)
+			if _, ok := distinct[t][key]; !ok {
+				distinct[t][key] = append([]int{}, r.choices...)
+			}
+		}
+	})
+	c09InstallPointHook(nil)
+	c09ActiveSched = nil
+	if err != nil {
+		// the library's control flow differed between two executions of the same schedule prefix: shared state
+		// survived from one execution to the next (e.g. a lazily filled cache). Exploration of this scenario stops
+		// here; what was observed so far is still reported.
+		res.Diverged = err.Error()
+	}
+	// solo results afterwards (so that the exploration started from a cold process)
+	for t, oi := range []int{a, b} {
+		solo := pool[oi].Run(c09Env(nil, 0, nil))
+		want := solo.Text + fmt.Sprint(solo.Dist)
+		for got, schedule := range distinct[t] {
+			if got != want {
+				res.Diffs = append(res.Diffs, struct {
+					Schedule []int  `json:"schedule"`
+					Detail   string `json:"detail"`
+				}{schedule, fmt.Sprintf("thread %d %s differs from its solo result: %s", t, pool[oi].Name, diffAt(got, want))})
+			}
+		}
+	}
+	res.Conflicts = map[string][]string{}
+	for v, ths := range access {
+		if isSync[v] || len(ths) < 2 || len(writes[v]) == 0 {
+			continue
+		}
+		var ss []string
+		for s := range sites[v] {
+			ss = append(ss, s)
+		}
+		sort.Strings(ss)
+		res.Conflicts[v] = ss
+	}
+	out, _ := json.Marshal(res)
+	os.Stdout.Write(out)
 }
